@@ -12,6 +12,7 @@ import itertools, random
 
 SCOPED = ['for', 'forelse', 'forrec', 'forrecne', 'forfilter', 'with', 'setblock', 'setblockf', 'filter', 'autoescape', 'if', 'ifelse']
 SCOPED_MACRO = ['macrocall', 'callblock']
+LEAVES_EXTRA = ['setblockself', 'looplookup']
 LEAVES = ['text', 'emit', 'break', 'continue', 'set', 'ifbreak', 'ifcontinue', 'emitvar', 'setself', 'withself', 'recurse']
 
 
@@ -44,6 +45,10 @@ class Gen:
             return '{% set q = q %}{{ q }}'
         if kind == 'withself':
             return '{% with w = w %}{{ w }}{% endwith %}'
+        if kind == 'setblockself':
+            return '{% set z %}[{{ z }}]{% endset %}{{ z }}'
+        if kind == 'looplookup':
+            return '{{ loop.index }}'
         if kind == 'recurse':
             return '{{ loop(%s.c) }}' % (loopvar or 'x')
         raise ValueError(kind)
